@@ -687,8 +687,14 @@ def run(ctx):
             # these speak about one fetch: the one whose event made the invariant false
             key = fetch_key(pi, verdict, fid, r["case"]["faults"], r)
         elif verdict.startswith("ErrPaths"):
-            # about the subgraph answers that carried errors
-            key = "%s:%s" % (verdict, pi.sig({k: v for k, v in r["case"]["faults"].items() if v in ("PartialData", "ErrorsNoData")}, r))
+            # about the subgraph answers whose errors are not where the relation puts them (for the key only: which fetches)
+            try:
+                recs = err_records(pi, r, json.loads(r["response"]))
+            except ValueError:
+                recs = []
+            off = {str(e["f"] - 1) for e in recs if not e["found"] or e["haspath"] != e["subhas"]
+                   or (e["subhas"] and e["got"] != (e["sub"] if (verdict == "ErrPathsPass" or not e["ent"]) else e["item"] + e["rest"]))}
+            key = "%s:%s" % (verdict, "+".join(sorted({"%s/%s" % (pi.fetches[int(k)]["kind"], r["case"]["faults"].get(k, "ok")) for k in off})))
         else:
             key = "%s:%s" % (verdict, pi.sig(r["case"]["faults"], r))
         if verdict == "nonconformance":
